@@ -19,7 +19,7 @@
    Only property theorems here, each closed by [exact]. *)
 From SG Require Import Base.Prelude C14.Attachments C14.AttachmentsProofs C14.AttachmentsTheorems
                        C14.AttachmentsLinear C14.AllowList C14.AllowListProofs
-                       C14.Compaction C14.CompactionProofs C14.CompactionTheorems.
+                       C14.Compaction C14.CompactionProofs C14.CompactionTheorems C14.RevTreePersist.
 Open Scope N_scope.
 
 (* att_safety: attachment data that was stored at some point of a history and that a reader of some leaf revision
@@ -126,6 +126,49 @@ Theorem C14_allow_list_scoped : forall es k,
   allowed (fst (arun es)) k = true <-> exists t ks, In (t, ks) (snd (arun es)) /\ In k ks.
 Proof. exact allow_list_scoped_all. Qed.
 Print Assumptions C14_allow_list_scoped.
+
+(* ---------------- persistence of the rev tree between operations (C14/RevTreePersist.v) ---------------- *)
+
+(* the per-revision attachment flag of a loaded tree is exactly what the stored hasAttachments index list says,
+   whether the revision's body is inline (bodymap), out of line (bodyKeyMap -> _sync:rb:) or absent *)
+Theorem C14_revtree_flag_from_index : forall p rb i, (i < length (p_revs p))%nat ->
+  r_flag (nth i (unmarshal (p, rb)) rev0) = is_some (nlookup i (p_hasatt p)).
+Proof. exact unmarshal_flag. Qed.
+Print Assumptions C14_revtree_flag_from_index.
+
+(* reload = identity: storing a tree (distinct revision ids, parents inside the tree) and loading it back gives
+   the same tree -- ids, parents, deleted, attachment flags, bodies -- for EVERY placement [big] of the bodies on
+   either side of the inline limit *)
+Theorem C14_revtree_reload_identity : forall big t, tree_ok t -> reload_revs big t = t.
+Proof. exact reload_identity. Qed.
+Print Assumptions C14_revtree_reload_identity.
+
+(* every document of every reachable state has such a tree (and its current revision in it) *)
+Theorem C14_revtree_reachable_ok : forall fixed ac sw es, rt_docs_ok (run fixed ac sw init es).
+Proof. intros fixed ac sw es. exact (run_docs_ok fixed ac sw es init init_docs_ok). Qed.
+Print Assumptions C14_revtree_reachable_ok.
+
+(* so a history in which every event works on freshly reloaded documents is the history without reloads,
+   whatever the placement of the bodies ... *)
+Theorem C14_reload_histories : forall big fixed ac sw es,
+  runR big fixed ac sw init es = run fixed ac sw init es.
+Proof. intros big fixed ac sw es. exact (runR_run big fixed ac sw es init init_docs_ok). Qed.
+Print Assumptions C14_reload_histories.
+
+(* ... the set of attachment ids the sweep computes from the leaves' flags is the same after a reload ... *)
+Theorem C14_reload_keeps_leaf_attachment_ids : forall big fixed ac sw es dk d excl,
+  dlookup dk (s_docs (run fixed ac sw init es)) = Some d -> leafkeys (reload_doc big d) excl = leafkeys d excl.
+Proof. exact reload_leafkeys. Qed.
+Print Assumptions C14_reload_keeps_leaf_attachment_ids.
+
+(* ... and att_safety holds over histories with reloads and large (out-of-line) non-winning bodies *)
+Theorem C14_att_safety_across_reloads : forall big fixed ac sw es1 es2 k,
+  ok_run fixed ac sw init (es1 ++ es2) ->
+  stored (runR big fixed ac sw init es1) k ->
+  (forall j, (1 <= j <= length es2)%nat -> referenced (runR big fixed ac sw init (es1 ++ firstn j es2)) k) ->
+  stored (runR big fixed ac sw init (es1 ++ es2)) k.
+Proof. exact att_safety_reload. Qed.
+Print Assumptions C14_att_safety_across_reloads.
 
 (* ---------------- attachment compaction ---------------- *)
 (* [bd]: what keys the mark phase's map -- true = the data document id (the code since commit 360f98e, what
@@ -256,4 +299,23 @@ Proof.
   - eexists. split; [left; reflexivity|].
     exists [(0, CpAtt 1 true)]. split; [left; reflexivity|left; reflexivity].
   - split; [vm_compute; tauto|]. split; [vm_compute; reflexivity|]. split; vm_compute; reflexivity.
+Qed.
+
+(* non-vacuity, reload: a tree with a current revision, a flagged leaf whose body is out of line and a tombstoned
+   leaf is well formed, its stored form lists the flag of the out-of-line leaf, and it reloads to itself *)
+Definition nv_tree : list rev :=
+  [ Rev (1, 50) None false [] false;
+    Rev (2, 90) (Some (1, 50)) false [] false;
+    Rev (2, 10) (Some (1, 50)) false [(0, Meta 5 1 true)] true;
+    Rev (2, 5) (Some (1, 50)) true [] false ].
+Example C14_reload_nonvacuous :
+  tree_ok nv_tree /\
+  p_hasatt (fst (marshal (fun id => revid_eqb id (2, 10)) nv_tree)) = [(2%nat, tt)] /\
+  p_bodykeys (fst (marshal (fun id => revid_eqb id (2, 10)) nv_tree)) = [(2%nat, (2, 10))] /\
+  reload_revs (fun id => revid_eqb id (2, 10)) nv_tree = nv_tree.
+Proof.
+  split.
+  - split; [repeat constructor; cbn; intuition discriminate|].
+    intros r q I P. cbn in I. destruct I as [E|[E|[E|[E|[]]]]]; subst r; cbn in P; inversion P; cbn; auto.
+  - split; [reflexivity|]. split; [reflexivity|]. vm_compute. reflexivity.
 Qed.
